@@ -206,26 +206,22 @@ def check(repo, tier):
                 bad = []
                 if not (isinstance(res, Arr) and res.ndim == dim and all(sz_eq(s, 3 ** level) for s in res.shape)):
                     bad.append(f'result shape {getattr(res, "shape", None)} instead of {(3 ** level,) * dim}')
-                # count the Kronecker factors
-                v, n_kron, gen = res, 0, None
-                seen = 0
-                while isinstance(v, Arr) and seen < 50:
-                    seen += 1
+                # the result is the level-fold Kronecker power of ONE generator, however the products are grouped (g (x) g (x) g left-nested, or (g (x) g) (x) g ...):
+                # the leaves of the tree of np.kron calls
+                def leaves(v, depth=0):
+                    if not isinstance(v, Arr) or depth > 60:
+                        return [v]
                     if 'kron' in v.tags:
                         a_, b_ = v.tags['kron']
-                        n_kron += 1
-                        gen = b_ if gen is None else gen
-                        if b_ is not gen:
-                            bad.append('the Kronecker factors are not one and the same generator')
-                        v = a_
-                    elif v.parents and v.origin in ('astype', 'copy'):
-                        v = v.parents[0]
-                    else:
-                        break
-                if n_kron != level - 1:
-                    bad.append(f'{n_kron} Kronecker products for level {level} (expected {level - 1})')
-                if gen is not None and v is not gen:
-                    bad.append('the first factor is not the generator')
+                        return leaves(a_, depth + 1) + leaves(b_, depth + 1)
+                    if v.parents and v.origin in ('astype', 'copy'):
+                        return leaves(v.parents[0], depth + 1)
+                    return [v]
+                lv = leaves(res)
+                if len(lv) != level:
+                    bad.append(f'the result is a Kronecker product of {len(lv)} factors for level {level}')
+                if any(x is not lv[0] for x in lv[1:]):
+                    bad.append('the Kronecker factors are not one and the same generator')
                 run.oblige('D4', (fname, scen), not bad)
                 if bad:
                     run.add(F(fname, 'D4', 'Kronecker power', f'{scen}: ' + '; '.join(bad[:3])))
@@ -250,6 +246,12 @@ def sym_np():
         stack = staticmethod(np.stack)
         concatenate = staticmethod(lambda parts, axis=0, dtype=None, **k: np.concatenate([np.asarray(p_, dtype=object) for p_ in parts], axis=axis))
         add = staticmethod(lambda a, b, dtype=None, **k: a + b)
+
+        @staticmethod
+        def block(blocks):
+            def conv(b_):
+                return [conv(x_) for x_ in b_] if isinstance(b_, list) else np.asarray(b_, dtype=object)
+            return np.block(conv(blocks))
         dtype = staticmethod(np.dtype)
         newaxis = None
         binary_repr = staticmethod(np.binary_repr)
